@@ -33,8 +33,10 @@ def run(ctx):
     ctx.exhaustive = True
     ctx.rule = ("full product of: callee with 0..2 values + error; error nil / non-nil (callee then also returns junk "
                 "values); operator !, ?, ?:d (d a logging call; only for single-value callees); use position statement / "
-                "assignment / call argument / operand of + / inside a function literal / inside a method; callee written "
-                "g(fail) or command-style h; for ?: enclosing function with 1..3 results ending in error, first result "
+                "assignment / call argument / operand of + / inside a function literal / inside a method / statement in a lambda argument of an "
+                "overloaded function (second candidate matches, so the body is compiled twice); callee written g(fail), "
+                "command-style h, or command-style with arguments `g! fail`; call on one line or spread over three lines "
+                "(the frame must name the first line); for ?: enclosing function with 1..3 results ending in error, first result "
                 "type int/string/*T/[]int/struct, unnamed or named-and-pre-assigned results; every case is distinct")
     ctx.assumptions += ["one wrapped call per enclosing function; the error is a sentinel checked with errors.Is",
                         "the frame is checked by `Error()` containing the source text of the wrapped expression"]
